@@ -21,6 +21,7 @@ def build_spec():
     c_schedules.declare_node_side(spec)
     c_schedules.declare_shift_end(spec)
     c_schedules.declare_interrupt(spec)
+    c_schedules.declare_slotted(spec)
     c_preempt.declare_class_change_event(spec)
     return spec
 
